@@ -53,6 +53,7 @@
 //!
 //! Indices >= 64N are outside the property and are never passed.
 
+mod cold;
 mod equality;
 mod placed;
 mod stall;
@@ -1513,11 +1514,43 @@ fn pairs<const N: usize>(pats: &[Vec<u64>]) -> Result<PairReport, (usize, String
 /// Violations, at most one per check family (the first in enumeration order: N ascending, BFS order).
 struct Fams {
     seen: BTreeSet<String>,
+    /// the cold-start pass (see `cold`) observed a wrong result in this run
+    cold_hit: bool,
+    /// mismatches of the parallel exploration that a single thread does not reproduce, left to the cold-start findings
+    routed_to_cold: u64,
+    /// extra rounds of the cold-start menu started because of such a mismatch
+    cold_escalations: u64,
 }
 
 impl Fams {
     fn report(&mut self, run: &mut Run, family: String, v: Violation) {
         if self.seen.insert(family) {
+            // a mismatch seen by the parallel workers of the exploration that the plain re-execution (one
+            // fresh thread, recorded warm-up) does not show is an effect of threads using the library at
+            // the same time; if the cold-start pass has observed such an effect, that finding (which has a
+            // re-execution of its own) stands for it. Otherwise it is passed on and `finish` decides.
+            if v.replay.get("cold").is_none() && confirm(&v.replay).is_ok() {
+                // not reproduced on one thread and the scheduled cold-start pass was quiet (its overlap is
+                // free-running, e.g. a loaded machine): repeat the whole cold-start menu a few times before
+                // leaving the mismatch to `finish` (exit 2, no verdict)
+                let mut round = 0;
+                while !self.cold_hit && round < 4 {
+                    round += 1;
+                    self.cold_escalations += 1;
+                    if let Ok(o) = cold::pass() {
+                        for h in &o.hits {
+                            self.cold_hit = true;
+                            if self.seen.insert(format!("cold.{}", h.item)) {
+                                run.violation(Violation::new(h.signature.clone(), h.summary.clone(), h.replay.clone()));
+                            }
+                        }
+                    }
+                }
+                if self.cold_hit {
+                    self.routed_to_cold += 1;
+                    return;
+                }
+            }
             run.violation(v);
         }
     }
@@ -1911,6 +1944,9 @@ fn confirm_n<const N: usize>(v: &Value) -> Result<(), String> {
 /// observed the way the workers of an exploration are (`stall`): a call that does not return within the
 /// same timeout is the violation, and the thread is left behind.
 fn confirm(v: &Value) -> Result<(), String> {
+    if v.get("cold").is_some() {
+        return cold::confirm(v);
+    }
     let n = v["n"].as_u64().unwrap_or_else(|| bad_replay()) as usize;
     let warm: Vec<usize> = match &v["warmup"] {
         Value::Null => vec![],
@@ -2010,6 +2046,7 @@ fn watchdog(prop: String, tier: Tier) {
 }
 
 fn main() {
+    cold::child_main_if_asked();
     let args = Args::parse();
     quiet_panics();
     watchdog(args.prop.clone(), args.tier);
@@ -2020,7 +2057,16 @@ fn main() {
     if !probes_work() {
         run.machinery_failure("the probes for optional traits (Hash, PartialOrd) do not tell a type that has them from one that has not");
     }
-    let mut fams = Fams { seen: BTreeSet::new() };
+    let mut fams = Fams { seen: BTreeSet::new(), cold_hit: false, routed_to_cold: 0, cold_escalations: 0 };
+    // cold-start pass first: fresh child processes, several threads, each using bitsets of its own
+    let cold_outcome = match cold::pass() {
+        Ok(o) => o,
+        Err(e) => run.machinery_failure(&e),
+    };
+    for h in &cold_outcome.hits {
+        fams.cold_hit = true;
+        fams.report(&mut run, format!("cold.{}", h.item), Violation::new(h.signature.clone(), h.summary.clone(), h.replay.clone()));
+    }
     let mut tot = Totals { all_closed: true, ..Default::default() };
     let thorough = args.tier == Tier::Thorough;
     let wall_cap = args.tier.pick(25.0, 500.0);
@@ -2110,6 +2156,10 @@ fn main() {
             "note": format!("every call into the library runs inside a section that is observed every {} ms; a thread found at the same point of the same section (no judged call returned in between) {} times in a row is reported as a violation (family stuck:) with a replay that is observed the same way", stall::TICK.as_millis(), stall::TIMEOUT_TICKS),
         }),
     );
+    let mut cold_ev = cold::evidence(&cold_outcome);
+    cold_ev["exploration_mismatches_not_reproduced_on_one_thread_and_left_to_this_pass"] = json!(fams.routed_to_cold);
+    cold_ev["extra_rounds_of_the_menu_started_by_such_a_mismatch"] = json!(fams.cold_escalations);
+    run.cov("cold_start_pass", cold_ev);
     run.cov("exhaustive", tot.all_closed && !run.has_violations());
     run.cov(
         "exhaustive_scope",
@@ -2157,7 +2207,12 @@ fn main() {
          fresh thread that performs the recorded warm-up and then the recorded case. Calls that do not return: every call into the library (constructors, transitions, \
          observers, per-state judgement, operator and equality rows, operand building, the warm-up) runs inside a section on the thread where its history ran; a monitor looks at \
          all threads every 250 ms, and a thread found at the same point of the same section (no judged call has returned in between) 40 times in a row is reported as a violation of family stuck: with the state (or operands) and the \
-         call it is in; its replay runs on a fresh thread observed in the same way with the same timeout. The whole tier runs a second time in the dbg profile (debug assertions \
+         call it is in; its replay runs on a fresh thread observed in the same way with the same timeout. Cold start, independent objects used from several threads: the engine binary is started again as a fresh process for every item of the menu \
+         {Display, Debug, count, iter_bits, test, from_u64, new/default/clear, !x, & | ^ ^=, clone/==/!=} x T in {2, 4, 16} threads x 8 repetitions; the T threads are released together by a barrier, thread i idles for \
+         (repetition x i) busy-loop iterations and then performs the item on bitsets of its OWN of capacities 1, 2, 3 as its first use of the library, judged against the model (family cold:). This pass is an enumeration of \
+         cold-start configurations whose thread overlap is NOT controlled by a scheduler (free-running): a miss proves nothing, a wrong result in any child is a genuine output of the real code; its replay records (item, T, stagger) and starts up to 64 \
+         fresh processes, reproducing if any of them shows a wrong result. A mismatch seen by the parallel workers of the exploration that one thread does not reproduce is left to the findings of this pass when it has any. \
+         The whole tier runs a second time in the dbg profile (debug assertions \
          and integer overflow checks; there the binary operators use at most 400 operands), where a panic on an in-domain call is a violation (signature prefix dbg:).",
     );
     run.assume("Display of a Bitset together with test(i) for every i < 64N exposes its complete state (the struct has the single field `data`); state identity uses the model bits plus the Display rendering");
@@ -2167,6 +2222,7 @@ fn main() {
     run.assume("a call into the library that never returns cannot be decided without a clock, except where the engine's own closure is being called (there it is ended after 4(64N+2) calls): a thread observed inside the same call 40 times in a row, 250 ms apart, is taken to be in a call that does not terminate (the longest whole section of this run - up to thousands of judged calls - is reported under calls_that_must_return: the margin is the evidence that a slow machine is not mistaken for a hang; observations are counted, not timed, so a stopped process does not age); the choice among several calls stuck at the same time is the smallest (capacity, family, case), not the first in enumeration order. Only a stall outside every section for 120 s still ends in exit 2 without a verdict");
     run.assume("Hash and PartialOrd are not implemented by Bitset at the pinned revision; the equality pairs probe for them at compile time and judge them (equal sets hash alike; partial_cmp is Equal exactly for equal sets and antisymmetric) only if they exist — no order between different sets is demanded");
     run.assume("placement: outside the placement family every bitset the engine creates is 64-byte aligned, so the closure, the sweep, the operator pairs and the equality pairs see one address class; the placement family covers the operand addresses modulo 64 (all 64 combinations for two operands, all 8 classes for one) with the stated patterns, not with every reached pattern; values returned by value (a & b, !x, clone()) are created in the callee's frame, whose placement the engine does not own; addresses modulo more than 64 (pages) are not varied");
+    run.assume("concurrent use is covered only by the cold-start pass (independent bitsets, first use of the library in a process, menu x thread counts x start offsets as stated); it is free-running, so it can only find, never exclude, an effect of overlapping first uses; objects shared between threads are not in the property and are not exercised");
     run.assume("the dbg-profile pass judges the same plan with a smaller operand cap for the binary operators; it reports through the parent (signature prefix dbg:) and its replays run in the dbg build");
     run.finish(&confirm)
 }
